@@ -104,6 +104,10 @@ func TestC09_Notebook(t *testing.T) {
 			oldCmds = append(oldCmds, c)
 		}
 		fileMode := c09DrawModes(t, base)
+		symlinked := rapid.IntRange(0, 4).Draw(t, "symlinked") == 0
+		if symlinked {
+			fileMode += "+symlink"
+		}
 		old := readOrNil(base.Notebook())
 		var oldEntries []database.Command
 		if old != nil {
@@ -166,6 +170,9 @@ func TestC09_Notebook(t *testing.T) {
 				defer func() { <-sem }()
 				h := copyHomeRaw(dir, base)
 				defer h.Remove()
+				if symlinked {
+					c09Symlink(h)
+				}
 				r := runWtfLimited(h, dir, args, int64(k))
 				got := readOrNil(h.Notebook())
 				o := outcome{k: k}
@@ -238,6 +245,22 @@ func copyHomeRaw(dir string, src *proc.Home) *proc.Home {
 	return h
 }
 
+// c09Symlink turns the notebook and the history of h into symbolic links to files kept in
+// another directory (a dotfiles setup): whatever the writer does with the link, the content
+// read through the configured path must stay whole.
+func c09Symlink(h *proc.Home) {
+	for i, p := range []string{h.Notebook(), h.History()} {
+		if _, err := os.Lstat(p); err != nil {
+			continue
+		}
+		real := filepath.Join(h.Dir, "dotfiles", fmt.Sprintf("f%d", i))
+		os.MkdirAll(filepath.Dir(real), 0o755)
+		if os.Rename(p, real) == nil {
+			os.Symlink(real, p)
+		}
+	}
+}
+
 // c09DrawModes gives the notebook and the history of h permission bits other than the 0644
 // the tool creates them with (a user's chmod, an older version, a restrictive umask).
 func c09DrawModes(t *rapid.T, h *proc.Home) string {
@@ -300,6 +323,10 @@ func TestC09_History(t *testing.T) {
 			t.Fatalf("harness: old history does not load: %v", err)
 		}
 		fileMode := c09DrawModes(t, base)
+		symlinked := rapid.IntRange(0, 4).Draw(t, "symlinked") == 0
+		if symlinked {
+			fileMode += "+symlink"
+		}
 		oldBytes := readOrNil(base.History())
 		q := rapid.SampledFrom(queries).Draw(t, "q")
 		args := []string{"--no-color", "-d", dbp, "--", q}
@@ -328,6 +355,9 @@ func TestC09_History(t *testing.T) {
 				defer func() { <-sem }()
 				h := copyHomeRaw(dir, base)
 				defer h.Remove()
+				if symlinked {
+					c09Symlink(h)
+				}
 				r := runWtfLimited(h, dir, args, int64(k))
 				o := outcome{k: k}
 				got, err := loadHist(h.History())
